@@ -55,6 +55,35 @@ type HClient struct {
 	Grants []string `json:"grants"`
 	Scopes []string `json:"scopes"`
 	Aud    []string `json:"aud"`
+	// per-client lifetime overrides in ms (client_with_custom_token_lifespans.go); nil = the client has no table;
+	// keys: ac_at ac_rt cc_at im_at pw_at pw_rt rt_at rt_rt
+	Life map[string]int64 `json:"life,omitempty"`
+}
+
+var lifeKeys = []string{"ac_at", "ac_rt", "cc_at", "im_at", "pw_at", "pw_rt", "rt_at", "rt_rt"}
+
+func lifeCfg(m map[string]int64) *fosite.ClientLifespanConfig {
+	d := func(k string) *time.Duration {
+		if v, ok := m[k]; ok {
+			x := ms(v)
+			return &x
+		}
+		return nil
+	}
+	return &fosite.ClientLifespanConfig{
+		AuthorizationCodeGrantAccessTokenLifespan: d("ac_at"), AuthorizationCodeGrantRefreshTokenLifespan: d("ac_rt"),
+		ClientCredentialsGrantAccessTokenLifespan: d("cc_at"), ImplicitGrantAccessTokenLifespan: d("im_at"),
+		PasswordGrantAccessTokenLifespan: d("pw_at"), PasswordGrantRefreshTokenLifespan: d("pw_rt"),
+		RefreshTokenGrantAccessTokenLifespan: d("rt_at"), RefreshTokenGrantRefreshTokenLifespan: d("rt_rt"),
+	}
+}
+
+// the client object registered in the store: with a lifespan table when the case has one
+func registered(dc *fosite.DefaultClient, c *HClient) fosite.Client {
+	if c.Life == nil {
+		return dc
+	}
+	return &fosite.DefaultClientWithCustomTokenLifespans{DefaultClient: dc, TokenLifespans: lifeCfg(c.Life)}
 }
 
 type HTok struct {
@@ -226,7 +255,7 @@ func newWorld(t *testing.T, h *HHistory) *world {
 		dc := &fosite.DefaultClient{}
 		w.applyClient(dc, i, &c)
 		w.clients = append(w.clients, dc)
-		w.store.Clients[dc.ID] = dc
+		w.store.Clients[dc.ID] = registered(dc, &c)
 	}
 	w.store.Users["peter"] = storage.MemoryUserRelation{Username: "peter", Password: "secret"}
 	var st interface{} = &valueStore{w.store}
@@ -670,7 +699,7 @@ func (w *world) exec(op *HOp) HObs {
 		dc := &fosite.DefaultClient{}
 		w.applyClient(dc, op.Client, op.NewClient)
 		w.clients[op.Client] = dc
-		w.store.Clients[dc.ID] = dc
+		w.store.Clients[dc.ID] = registered(dc, op.NewClient)
 	default:
 		w.t.Fatalf("unknown op kind %q", op.Kind)
 	}
@@ -753,7 +782,19 @@ func coqCfg(c *HConfig) string {
 }
 
 func coqClient(c *HClient) string {
-	return fmt.Sprintf("(Build_client %s %s %s %s)", B(c.Public), QL(c.Grants), QL(c.Scopes), coqAurls(c.Aud))
+	life := "None"
+	if c.Life != nil {
+		parts := make([]string, len(lifeKeys))
+		for i, k := range lifeKeys {
+			if v, ok := c.Life[k]; ok {
+				parts[i] = "(Some " + Z(v) + ")"
+			} else {
+				parts[i] = "None"
+			}
+		}
+		life = "(Some (Build_lifespans " + strings.Join(parts, " ") + "))"
+	}
+	return fmt.Sprintf("(Build_client %s %s %s %s %s)", B(c.Public), QL(c.Grants), QL(c.Scopes), coqAurls(c.Aud), life)
 }
 
 func coqTok(t HTok) string {
